@@ -296,7 +296,7 @@ static void exercise(hctx* h, blob f, int mode, const char* desc) {
     int p[2]; if (pipe(p) != 0) return;
     fflush(NULL);
     pid_t pid = fork();
-    if (pid == 0) { close(p[0]); signal(SIGALRM, on_alarm_c04); alarm(10); child_exercise(path, f.b, f.n, mode, p[1]); _exit(0); }
+    if (pid == 0) { close(p[0]); h_cpu_alarm(10, on_alarm_c04); child_exercise(path, f.b, f.n, mode, p[1]); _exit(0); }
     close(p[1]);
     char sum[300]; ssize_t got = read(p[0], sum, sizeof sum - 1); if (got < 0) got = 0; sum[got] = 0; close(p[0]);
     for (char* c = sum; *c; c++) if (*c == ' ' || *c == '=') *c = '_';
